@@ -61,7 +61,7 @@ fn check(ast: &Ast, vars: &[(&'static str, RV)], ci: usize, st: &mut Stats) {
         test: test_wrap(
             "c11_replay",
             &format!(
-                "    // context {}: variables {:?}; functions r, s (identity, recording), fail (fails)\n    // compare eval_with_context({:?}, &c) with eval_with_context_mut({:?}, &mut c.clone())\n",
+                "    // context {}: variables {:?}; functions r, s (identity, recording), typeof (user function that fails)\n    // compare eval_with_context({:?}, &c) with eval_with_context_mut({:?}, &mut c.clone())\n",
                 ci,
                 vars.iter().map(|(n, v)| format!("{} = {}", n, v.key())).collect::<Vec<_>>(),
                 src,
@@ -292,7 +292,7 @@ fn odd_targets() -> Stats {
                         property: ID,
                         kind: "reached-assignment-not-rejected-as-immutable".into(),
                         input: json!({"source": src, "context": 1}),
-                        expected: format!("Err({:?}) on a shared context (x = 1; functions r, s, fail), context unchanged", want),
+                        expected: format!("Err({:?}) on a shared context (x = 1; functions r, s, typeof), context unchanged", want),
                         actual: format!("{} / variables {:?}", res_dbg(&real), observe_vars(&c)),
                         test: test_wrap("c11_replay", &format!("    let mut c = HashMapContext::<DefaultNumericTypes>::new();\n    c.set_value(\"x\".into(), Value::Int(1)).unwrap();\n    c.set_function(\"r\".into(), Function::new(|a| Ok(a.clone()))).unwrap();\n    panic!(\"{{:?}}\", eval_with_context({:?}, &c));\n", src)),
                     });
